@@ -104,6 +104,22 @@ Section WithEnv.
       | None => Fault NullDeref
       end.
 
+  (* ---- compressed sections.  The library hands the buffer of a section flagged SHF_COMPRESSED / SHF_RPX_DEFLATE to the
+     user's compression_interface, if the object has one.  The model fixes the interface to the one the correspondence
+     harness installs (harness/elfio_harness.cpp, xor_compression): inflate/deflate XOR every byte with 0x5A and keep the
+     length; inflate returns a buffer one byte longer (terminator) and nullptr when handed nullptr. ---- *)
+  Definition codec_byte (b : N) : N := N.lxor b 90.
+  Definition is_compressed (compr : bool) (s : section) : bool :=
+    compr && (negb (N.land (sh_flags s) SHF_RPX_DEFLATE =? 0) || negb (N.land (sh_flags s) SHF_COMPRESSED =? 0)).
+  (* section_impl::load, eager branch, after get_data(): inflate( data.get(), size ); the data pointer is replaced, the
+     size set to what the interface reports (the same here), data_size is left as it was.  A lazy load never gets here. *)
+  Definition inflate_step (compr lazy : bool) (s : section) : res section :=
+    if lazy || negb (is_compressed compr s) then Ok s
+    else match s_data s with
+         | None => Ok s
+         | Some b => d <- rd (Some b) 0 (sh_size s) ;; Ok (with_data s (Some (map codec_byte d ++ [0])) (s_data_size s))
+         end.
+
   (* the loop of load_sections: sections are accumulated in reverse (the C++
      vector push_back is constant time; so is this) *)
   Fixpoint load_sections_loop (fuel : nat) (st : istream) (t : xlat) (c : cls) (enc : endian)
@@ -153,7 +169,9 @@ Section WithEnv.
         else
           let c := if cb =? 2 then C64 else C32 in
           '(st1, racc, ral) <- load_sections_loop (N.to_nat num) st (el_xlat el) c (e_enc h) offset entsize 0 num lazy [] [] ;;
-          let el2 := with_stream (with_secs el (rev_append racc [])) (Some st1) in
+          (* the inflate step of each section's load(): it touches nothing but that section, so it is applied after the loop *)
+          secs_i <- map_res (inflate_step (el_compr el) lazy) (rev_append racc []) ;;
+          let el2 := with_stream (with_secs el secs_i) (Some st1) in
           let al := rev_append ral [] in
           let shstrndx := e_shstrndx h in
           if shstrndx =? 0 then Ok (st1, el2, al)
